@@ -67,4 +67,16 @@ def h_api_flagstore_ToggleSuspend : Nat := 0x323448cdd011ace6
 /-- hash of the normalised skeleton of FindByRequestID (internal/persistence/jsondb/jsondb.go) -/
 def h_api_jsondb_FindByRequestID : Nat := 0xe5e17c4a1536fecd
 
+/-- hash of the normalised skeleton of * (internal/frontend/dag/handler.go) -/
+def h_rest_api_frontend_dag_handler_go : Nat := 0x1a5690ff016033e1
+
+/-- hash of the normalised skeleton of * (internal/frontend/dag/convert.go) -/
+def h_rest_api_frontend_dag_convert_go : Nat := 0xc2c66e60825fe98c
+
+/-- hash of the normalised skeleton of * (internal/client/client.go) -/
+def h_rest_api_client_client_go : Nat := 0x17c2ffbc68b96fd9
+
+/-- hash of the normalised skeleton of * (cmd/start.go) -/
+def h_rest_api_cmd_start_go : Nat := 0x2e014ea9d86ba5cc
+
 end BdModel.Canon.Api
